@@ -1,0 +1,14 @@
+//go:build verif
+// +build verif
+
+package fs
+
+// Verification hooks (compiled only with -tags verif).
+
+func VerifSplitWildcards(p string) (string, string) { return splitWildcards(p) }
+
+func VerifRootPath(root, p string, followLinks bool) (string, error) {
+	return rootPath(root, p, followLinks)
+}
+
+func VerifContainsWildcards(name string) bool { return containsWildcards(name) }
